@@ -14,14 +14,16 @@ open ESR.Subs
 /-! ### T: the source-derived tables are the ones the model and the theorems below are about -/
 
 /-- The `.replace` sequence, nan literal, csv delimiters, rank-block expression and `all_dup` construction extracted
-from the current source are exactly those of the model (`Model/Subs.lean`). -/
+from the current source are exactly those of the model (`Model/Subs.lean`).  `combOrder` is what the translator's
+symbolic evaluation of `comb` found: 2-combinations of the parameter indices in descending order (whichever of
+`np.flip(np.arange(n))`, `np.arange(n)[::-1]`, `range(n-1, -1, -1)`, … the source spells it with) = `Subs.comb`. -/
 theorem generated_matches_model :
     ESR.Gen.Subs.replaceSeq = replaceSeq ∧
     ESR.Gen.Subs.nanLiteral = nanCell ∧
     (ESR.Gen.Subs.sliceLo, ESR.Gen.Subs.sliceHi) = (0, 1) ∧
     ESR.Gen.Subs.readerDelimiter = ';' ∧
     (∀ d ∈ ESR.Gen.Subs.writerDelimiters, d = ';') ∧
-    ESR.Gen.Subs.combSource = "list(itertools.combinations(np.flip(np.arange(max_param)), 2))" ∧
+    ESR.Gen.Subs.combOrder = "descending" ∧
     (∀ k, genAllDup k = allDup k) := by
   refine ⟨by decide, by decide, by decide, by decide, by decide, rfl, ?_⟩
   intro k
